@@ -292,6 +292,14 @@ def trace_of(res, prop, timeout=300):
     return out if rc != 'timeout' else 'trace generation timed out'
 
 
+def cex_inputs(trace):
+    """the ghost/witness variables and harness choices of a CBMC counterexample trace (last value of each)"""
+    vals = {}
+    for m in re.finditer(r'^\s+((?:g_[A-Za-z0-9_\.\[\]l]+)|fs\d|vc\d|n|cap|size|units|used|id|k|off|back|cntgs_exc)=([^ \n]+)', trace, re.M):
+        vals[m.group(1)] = m.group(2)
+    return vals
+
+
 def run_units(units, workdir, jobs=16):
     os.makedirs(workdir, exist_ok=True)
     # build TUs first (deduplicated) so that parallel units do not race on the cache
